@@ -78,6 +78,7 @@ def pProd (j : Json) : Prod :=
   | some "cls" => .cls (pClassDef (getField j "cls"))
   | some "inst" => .inst (pInst (getField j "inst"))
   | some "qual" => .qual (pQualDecl (getField j "qual"))
+  | some "include" => .missingInclude
   | _ => .syntaxError
 
 def pOp (j : Json) : Option Op :=
